@@ -294,6 +294,71 @@ impl<'a> VisitMut for Rules<'a> {
     }
 
     fn visit_block_mut(&mut self, b: &mut syn::Block) {
+        if self.ctx.on("R34") {
+            // R34 (lazy iterator chain, by the std definitions of Iterator::map / next / fold):
+            //   let mut IT = A.iter().map(|p| F);
+            //   let Some(X) = IT.next() else { ELSE };
+            //   IT.fold(INIT, |acc, nxt| BODY)                      (tail expression of the block)
+            // ->  index loop over A: X is F at element 0 (ELSE when A is empty), the accumulator starts at INIT and is
+            //     updated with BODY for elements 1.. in order
+            let n = b.stmts.len();
+            if n >= 3 {
+                let i = n - 3;
+                let parts = (|| -> Option<(syn::Ident, syn::Expr, syn::Pat, syn::Expr, syn::Pat, syn::Block, syn::Expr, syn::Pat, syn::Pat, syn::Expr)> {
+                    let syn::Stmt::Local(l1) = &b.stmts[i] else { return None };
+                    let syn::Pat::Ident(itid) = &l1.pat else { return None };
+                    let init1 = l1.init.as_ref()?;
+                    if init1.diverge.is_some() { return None; }
+                    let syn::Expr::MethodCall(map) = &*init1.expr else { return None };
+                    if map.method != "map" || map.args.len() != 1 { return None; }
+                    let syn::Expr::Closure(cl) = &map.args[0] else { return None };
+                    if cl.inputs.len() != 1 { return None; }
+                    let syn::Expr::MethodCall(it) = &*map.receiver else { return None };
+                    if it.method != "iter" || !it.args.is_empty() { return None; }
+                    let a = (*it.receiver).clone();
+                    let p = match &cl.inputs[0] { syn::Pat::Type(pt) => (*pt.pat).clone(), q => q.clone() };
+                    let f = (*cl.body).clone();
+                    let syn::Stmt::Local(l2) = &b.stmts[i + 1] else { return None };
+                    let init2 = l2.init.as_ref()?;
+                    let (_, els) = init2.diverge.as_ref()?;
+                    let syn::Expr::Block(elsb) = &**els else { return None };
+                    let syn::Expr::MethodCall(nx) = &*init2.expr else { return None };
+                    if nx.method != "next" || norm(&nx.receiver.to_token_stream().to_string()) != itid.ident.to_string() { return None; }
+                    let syn::Pat::TupleStruct(ts) = &l2.pat else { return None };
+                    if !ts.path.is_ident("Some") || ts.elems.len() != 1 { return None; }
+                    let x = ts.elems[0].clone();
+                    let syn::Stmt::Expr(syn::Expr::MethodCall(fd), None) = &b.stmts[i + 2] else { return None };
+                    if fd.method != "fold" || fd.args.len() != 2 || norm(&fd.receiver.to_token_stream().to_string()) != itid.ident.to_string() { return None; }
+                    let syn::Expr::Closure(fc) = &fd.args[1] else { return None };
+                    if fc.inputs.len() != 2 { return None; }
+                    let strip = |q: &syn::Pat| match q { syn::Pat::Type(pt) => (*pt.pat).clone(), q => q.clone() };
+                    Some((itid.ident.clone(), a, p, f, x, elsb.block.clone(), fd.args[0].clone(), strip(&fc.inputs[0]), strip(&fc.inputs[1]), (*fc.body).clone()))
+                })();
+                if let Some((_it, a, p, f, x, els, init, acc, nxt, body)) = parts {
+                    let k = self.ctx.fresh();
+                    let vv = syn::Ident::new(&format!("vx_v{}", k), proc_macro2::Span::call_site());
+                    let nn = syn::Ident::new(&format!("vx_n{}", k), proc_macro2::Span::call_site());
+                    let ii = syn::Ident::new(&format!("vx_i{}", k), proc_macro2::Span::call_site());
+                    let ac = syn::Ident::new(&format!("vx_acc{}", k), proc_macro2::Span::call_site());
+                    let new: Vec<syn::Stmt> = vec![
+                        syn::parse_quote!(let #vv = #a;),
+                        syn::parse_quote!(let #nn = #vv.len();),
+                        syn::Stmt::Expr(syn::parse_quote!(if #nn == 0 #els), Some(Default::default())),
+                        syn::parse_quote!(let #x = { let #p = &#vv[0]; #f };),
+                        syn::parse_quote!(let mut #ac = #init;),
+                        syn::Stmt::Expr(syn::parse_quote!(for #ii in 1..#nn {
+                            let #nxt = { let #p = &#vv[#ii]; #f };
+                            let #acc = #ac;
+                            #ac = #body;
+                        }), Some(Default::default())),
+                        syn::Stmt::Expr(syn::parse_quote!(#ac), None),
+                    ];
+                    b.stmts.truncate(i);
+                    b.stmts.extend(new);
+                    self.ctx.used("R34");
+                }
+            }
+        }
         if self.ctx.on("R18") {
             // R18 (A-normal form): `X.m(ARG);` for the methods listed in opts.anf_calls -> `let vx_a<k> = ARG; X.m(vx_a<k>);`
             // so that a proof can name the argument (argument evaluation order is unchanged)
